@@ -43,8 +43,9 @@ def font_trace(data, src, src_kind, limits_user, lims_full, locs, optimize, seed
         tr = {"k": "font", "src": src, "src_kind": src_kind, "limits_user": json.dumps(_show(limits_user), sort_keys=True), "re": json.dumps(re_),
               "lims": [[rat(v) for v in l] for l in lims_full], "locs": [[rat(v) for v in loc] for loc in locs]}
         try:
-            keys = c08_project.choose_items(font, rng, max_glyphs=max_glyphs, max_points=max_points)
-            orig = c08_project.project(font, keys, tags, interner)
+            fontp = _load(data)      # a private copy for projecting (the instancer gets an untouched font)
+            keys = c08_project.choose_items(fontp, rng, max_glyphs=max_glyphs, max_points=max_points)
+            orig = c08_project.project(fontp, keys, tags, interner)
         except OutOfDomain as e:
             return {"k": "skip", "why": "original: %s" % e}
         if c08_project.has_gpos_feature_variations(font):
@@ -68,6 +69,12 @@ def font_trace(data, src, src_kind, limits_user, lims_full, locs, optimize, seed
             it["o"] = 1 if (optimize and key and key[0] in ("gv", "adv")) else 0
         for it in orig["items"]:
             it["o"] = 0
+        if len(orig["items"]) == len(proj["items"]):
+            # CFF2: the rounded quantities of the instance are the operands that were blended in the ORIGINAL
+            for a, b in zip(orig["items"], proj["items"]):
+                if a["key"] and a["key"][0] == "cff2":
+                    b["w"] = a["w"]
+                    b["nb"] = a["nb"]
         if len(orig["items"]) != len(proj["items"]):
             return {"k": "skip", "why": "instance: item count differs"}
         tr["orig"] = orig
@@ -279,15 +286,13 @@ def locations(axes, knots, lims_full, rng, n):
     """user-space locations inside the new limits: the new default, corners, lattice points"""
     per_axis = []
     for a, (lo, df, hi) in enumerate(lims_full):
+        # points whose old normalised coordinate is exact (lattice points / avar knots) ...
         c = [u for u in axis_candidates(axes[a], knots[a]) if lo <= u <= hi]
-        # dyadic positions of the old axis and mid points of the new one
-        olo, odf, ohi = axes[a]
-        for k in range(-8, 9):
-            x = F(k, 8)
-            u = odf + x * (ohi - odf) if k >= 0 else odf + x * (odf - olo)
-            if lo <= u <= hi:
-                c.append(u)
-        c += [lo, df, hi, (lo + df) / 2, (df + hi) / 2]
+        # ... and points whose NEW normalised coordinate is dyadic (k/8 of the way to the new min / max)
+        for k in range(1, 8):
+            c.append(df + F(k, 8) * (hi - df))
+            c.append(df - F(k, 8) * (df - lo))
+        c += [lo, df, hi]
         per_axis.append(sorted(set(c)))
     locs = [[l[1] for l in lims_full], [l[0] for l in lims_full], [l[2] for l in lims_full]]
     for _ in range(4 * n):
